@@ -222,12 +222,11 @@ void one_case(uint64_t, vh::Rng &r) {
     std::vector<c11::Ev> evs;
     std::vector<int> destroyed(t.n.size(), 0);
     int start_result = -1, main_rc = -1;
-    size_t destroy_from = (size_t)-1;   //! hooks from here on ran while the tree was being destroyed
     bool finished = false, loop_started = false, loop_exited = false;
     for (size_t i = 0; i + 3 <= raw.size(); i += 3) {
         uint8_t tag = raw[i], node = raw[i + 1], ok = raw[i + 2];
         if (tag <= c11::K_CLEANUP) evs.push_back(c11::Ev{(c11::Kind)tag, node, ok != 0});
-        else if (tag == TAG_DESTROYED) { ++destroyed[node]; if (destroy_from == (size_t)-1) destroy_from = evs.size(); }
+        else if (tag == TAG_DESTROYED) ++destroyed[node];
         else if (tag == TAG_LOOP_STARTED) loop_started = true;
         else if (tag == TAG_LOOP_EXITED) loop_exited = true;
         else if (tag == TAG_RESULT) {
@@ -258,7 +257,7 @@ void one_case(uint64_t, vh::Rng &r) {
         vh::viol("main/child-died", vh::fmt("child running %s ended with wait status 0x%x (finished=%d)", frontend ? "Main()" : "Start()/Stop()", status, finished));
         return;
     }
-    int outcome = mon.on_run(evs, destroy_from);
+    int outcome = mon.on_run(evs);
     if (!mon.dead) {
         if (frontend && main_rc != 0) mon.fail("main/return-code", vh::fmt("Main() returned %d", main_rc));
         if (!frontend && start_result != (outcome == 2 ? 1 : 0))
